@@ -56,6 +56,10 @@ quick.append(t(secs=400, jobs=16, n=5, d=1, classes=2))
 # min_weight_leaf = 0 is accepted by the parameter guard ("no minimum"): fit must return a tree
 # (failed before /repo f440bd5: panic `assertion failed: n_samples > 0.0`, algorithm.rs:676)
 quick.append(t(n=3, d=1, classes=2, mwl4=0))
+# fractional limits (a limit truncated to an integer would split a node reached by floor(limit) samples)
+for mws4, mwl4 in ((10, 4), (14, 4), (9, 4), (8, 5), (8, 10)):
+    quick.append(t(secs=120, n=4, d=1, classes=2, mws4=mws4, mwl4=mwl4))
+quick.append(t(secs=180, jobs=2, n=5, d=1, classes=2, mws4=10, mwl4=6))
 # concrete neighbouring doubles 2^e + i*ulp (outside the exact integer grid, so one concrete path per labelling):
 # midpoints (a+b)/2 are rounded.  Rounded down to a: fit routes `a <= split` left and predict must do the same
 # (failed before /repo e17f219).  Rounded up to b (odd a): `<= split` sent every row left, the right child was missing
